@@ -207,6 +207,12 @@ pub fn walk(ase: &AsepriteFile, seed: u64, budget_ops: usize) -> WalkStats {
                                 st.dim_error = Some(format!("tileset {} tile_image({}) is {}x{} for tile size {}x{}", id, i, ti.width(), ti.height(), sz.width(), sz.height()));
                             }
                         }
+                    } else if sz.height() as u64 * ts.tile_count() as u64 > u32::MAX as u64 {
+                    // the stacked image cannot exist (its height does not fit an image dimension): a sprite that loaded
+                    // with such a tileset must still not panic or hand out an image of other dimensions
+                    let img = ts.image();
+                    st.images += 1;
+                    st.dim_error = Some(format!("tileset {} image() returned {}x{} for {} tiles of {}x{} (stacked height {} does not fit an image)", id, img.width(), img.height(), ts.tile_count(), sz.width(), sz.height(), sz.height() as u64 * ts.tile_count() as u64));
                     } else {
                         st.skipped_big += 1;
                     }
